@@ -466,6 +466,12 @@ func main() {
 		}
 		req.Header.Set("X-Verif-Rid", rid)
 		req.Header.Set("X-Verif-Eng", eng)
+		if req.Header.Get("X-Verif-Cancel") != "" {
+			// the client has already gone away when the handler starts: the request context is done
+			cctx, cancel := context.WithCancel(req.Context())
+			cancel()
+			req = req.WithContext(cctx)
+		}
 		vprobe.Log(vprobe.Event{Ev: "req", Eng: eng, Rid: rid, Detail: rq.Verb + " " + rq.Target})
 		var resp *http.Response
 		func() {
